@@ -361,7 +361,7 @@ class Gen:
 
 
 def _padok(x):
-    return x.get("pad_ok", 1) == 1 and x.get("guard_ok", 1) == 1
+    return x.get("pad_ok", 1) == 1 and x.get("guard_ok", 1) == 1 and x.get("short_ok", 1) == 1      # short_ok: exact-fit / too-short buffers get the first characters, full length reported
 
 
 def check_probe_invalid(g, rec, status):
@@ -439,8 +439,8 @@ def check_probe(g, rec, snap, slot):
         elif fn in FN_GETTERS or fn == "GetVersionString":
             g.sig(fn, "live", "pcf")
             if p.get("r") != c.get("r") or f.get("r") != c.get("r") or f.get("flen") != len(c.get("r") or "") or not _padok(f):
-                return ("binding/%s" % fn, "%s on %s: C++ %r, C %r, Fortran glue %r len %r pad_ok %r guard_ok %r" % (
-                    fn, slot, p.get("r"), c.get("r"), f.get("r"), f.get("flen"), f.get("pad_ok"), f.get("guard_ok")))
+                return ("binding/%s" % fn, "%s on %s: C++ %r, C %r, Fortran glue %r len %r pad_ok %r guard_ok %r short_ok %r" % (
+                    fn, slot, p.get("r"), c.get("r"), f.get("r"), f.get("flen"), f.get("pad_ok"), f.get("guard_ok"), f.get("short_ok")))
         else:
             g.sig(fn, "live", "pc")
             if p.get("r") != c.get("r"):
@@ -464,8 +464,8 @@ def check_probe(g, rec, snap, slot):
                     return ("model/%s/in-range" % fn, "%s(%d) with %d blocks returned %r" % (fn, i, cnt, c.get("r")))
                 continue
             if p.get("r") != c.get("r") or f.get("r") != c.get("r") or f.get("flen") != len(c.get("r") or "") or not _padok(f):
-                return ("binding/%s" % fn, "%s(%d) on %s: C++ %r, C %r, Fortran glue(n+1) %r len %r pad_ok %r guard_ok %r" % (
-                    fn, i, slot, p.get("r"), c.get("r"), f.get("r"), f.get("flen"), f.get("pad_ok"), f.get("guard_ok")))
+                return ("binding/%s" % fn, "%s(%d) on %s: C++ %r, C %r, Fortran glue(n+1) %r len %r pad_ok %r guard_ok %r short_ok %r" % (
+                    fn, i, slot, p.get("r"), c.get("r"), f.get("r"), f.get("flen"), f.get("pad_ok"), f.get("guard_ok"), f.get("short_ok")))
             if not inrange and c.get("r") != "":
                 return ("model/%s/out-of-range" % fn, "%s(%d) with count %d returned %r, expected an empty string" % (fn, i, cnt, c.get("r")))
         # whole string vs lines is C09's business
